@@ -83,19 +83,20 @@ def fam_mapfiles():
     for name, body, k in (("enums5", enums, 5), ("enums5+sigs", enums + sigs, 5), ("shared-const", shared, 3), ("dupnames", dupnames, 4),
                           ("unknown-sections", unknown, 3), ("all", enums + sigs + shared + dupnames + unknown, 5)):
         mf = "!anmmap\n" + body
-        out.append(dict(name="map-%s-compile" % name, lang="anm12", kind="compile", source=anm_src, mapfile=mf, k=k))
+        # (the debug-info document lists every const the mapfile defines: its order is part of the output)
+        out.append(dict(name="map-%s-compile" % name, lang="anm12", kind="compile", source=anm_src, mapfile=mf, k=k, extra=["--output-debug-info", "dbg.json"]))
         out.append(dict(name="map-%s-decompile" % name, lang="anm12", kind="decompile", source=anm_src, mapfile=mf, k=k))
         out.append(dict(name="map-%s-decompile-raw" % name, lang="anm12", kind="decompile", source=anm_src, mapfile=mf, k=k,
                         opts=["--no-intrinsics", "--no-arguments"]))
     # sources that use the enum constants: qualified, unqualified (ambiguous -> error), and in the wrong enum (suspicious)
     use = ANM_HEAD + ("script script0 {\n    ins_75(E0.E0_v1);\n    ins_75(E1_v2);\n    ins_76(E2_v1, E3_v1, E0_v1);\n    ins_76(E1.E1_v1, E2.E2_v2, E3.E3_v3);\n"
                       "    ins_75(Shared);\n    ins_75(OnlyP);\n    ins_75(OnlyQ);\n    ins_77(Shared);\n}\n")
-    out.append(dict(name="map-enum-uses", lang="anm12", kind="compile", source=use, mapfile="!anmmap\n" + enums + sigs + shared, k=5))
+    out.append(dict(name="map-enum-uses", lang="anm12", kind="compile", source=use, mapfile="!anmmap\n" + enums + sigs + shared, k=5, extra=["--output-debug-info", "dbg.json"]))
     # ECL mapfile with timeline names and difficulty flags
     ecl_mf = ("!eclmap\n!ins_names\n45 foo\n40 foo\n59 bar\n!timeline_ins_names\n0 spawn\n2 spawn\n!gvar_names\n10000 A\n10001 A\n"
               "!difficulty_flags\n0 E-\n1 N-\n2 H-\n3 L-\n" + enums)
     ecl_src = "script timeline0 {\n    ins_0(sub0, 1.0, 2.0, 3.0, 4, 5, 6);\n    ins_2(sub0, 1.0, 2.0, 3.0, 4, 5, 6);\n}\nvoid sub0() {\n    ins_45(3 : 4 : 5 : 6);\n    ins_40(1.0);\n    ins_59(1);\n    $REG[10000] = $REG[10001];\n}\n"
-    out.append(dict(name="map-ecl-dups-compile", lang="ecl07", kind="compile", source=ecl_src, mapfile=ecl_mf, k=5))
+    out.append(dict(name="map-ecl-dups-compile", lang="ecl07", kind="compile", source=ecl_src, mapfile=ecl_mf, k=5, extra=["--output-debug-info", "dbg.json"]))
     out.append(dict(name="map-ecl-dups-decompile", lang="ecl07", kind="decompile", source=ecl_src, mapfile=ecl_mf, k=5))
     return out
 
